@@ -38,7 +38,8 @@ pub fn load_lua_config(content: &str) -> Result<Value, String> {
         ..Default::default()
     };
 
-    let r = match lua.load_sandboxed(content, &sandbox).eval::<LuaTable>() {
+    // `eval_sandboxed` (unlike `load_sandboxed(..).eval()`) also enforces the timeout and memory limit
+    let r = match lua.eval_sandboxed::<LuaTable>(content, &sandbox) {
         Ok(v) => v,
         Err(e) => {
             let err_msg = lua.get_error_message(e);
